@@ -264,6 +264,85 @@ def task_sift(t):
     return rep
 
 
+def task_big(t):
+    """Large instances: functions with several hundred nodes over 14 variables (level pairs
+    holding more than a hundred nodes): every adjacent swap, sifting, and sorting to the
+    interleaved order."""
+    _, which, _f = t
+    rep = run.Report()
+    rec = sweep.Rec(rep)
+    k = 7
+    a = ['a%d' % i for i in range(k)]
+    bb = ['b%d' % i for i in range(k)]
+    names = tuple(a + bb)
+    U = Universe(names)
+    f = 0
+    g = 0
+    for i in range(k):
+        f |= U.var(a[i]) & U.var(bb[i])
+        g ^= U.var(a[i]) & U.var(bb[(i + 1) % k])
+    order = {v: i for i, v in enumerate(names)}     # all a's above all b's: exponential size
+
+    def setup():
+        m = S.new_bdd(order)
+        b = sweep.Builder(m, U)
+        held, ext = [], {}
+        for fn_ in (f, g):
+            r = b.verified(fn_)
+            m.incref(r)
+            held.append(r)
+            ext[abs(r)] = ext.get(abs(r), 0) + 1
+        b(U.var(a[0]) ^ U.var(bb[-1]))      # garbage
+        return m, held, ext
+    cases = []
+    if which == 'swaps':
+        cases = [('swap', l) for l in range(len(names) - 1)]
+    elif which == 'sift':
+        cases = [('sift', 0)]
+    else:
+        cases = [('sort', 0), ('pairs', 0)]
+    for kind, l in cases:
+        case = dict(task=t, kind=kind, level=l)
+        try:
+            m, held, ext = setup()
+            n0 = len(m)
+            rep.max('big_nodes', n0)
+            if kind == 'swap':
+                m.swap(l, l + 1)
+            elif kind == 'sift':
+                m.collect_garbage()
+                n0 = len(m)
+                _bdd.reorder(m)
+                if len(m) > n0:
+                    raise Violation('sifting ended with more nodes than it started with')
+            elif kind == 'sort':
+                tgt = {}
+                for i in range(k):
+                    tgt[a[i]] = 2 * i
+                    tgt[bb[i]] = 2 * i + 1
+                _bdd.reorder(m, tgt)
+                if dict(m.vars) != tgt:
+                    raise Violation('the requested order does not hold after reorder(order)')
+            else:
+                _bdd.reorder_to_pairs(m, {a[i]: bb[i] for i in range(0, k, 2)})
+                for i in range(0, k, 2):
+                    if abs(m.vars[a[i]] - m.vars[bb[i]]) != 1:
+                        raise Violation('a requested pair is not adjacent after reorder_to_pairs')
+            den = O.Den(m, U)
+            O.check(m, ext, None)
+            for r, fn_ in zip(held, (f, g)):
+                if den(r) != fn_:
+                    raise Violation('a held reference changed denotation (large instance)')
+            rep.add('evaluations')
+            rep.add('nontrivial')
+        except Violation as e:
+            rec('big:' + e.what, e.what, case, **e.detail)
+        except Exception as e:  # noqa
+            rec('big-exception:' + type(e).__name__, 'raised %r' % (e,), case)
+    rep.sample(dict(kind='large instance', variables=len(names), what=which))
+    return rep
+
+
 def task_empty(t):
     """Managers with zero and one variable."""
     rep = run.Report()
@@ -297,7 +376,8 @@ def task_empty(t):
     return rep
 
 
-TASKS = dict(swap=task_swap, sort=task_sort, pairs=task_pairs, sift=task_sift, empty=task_empty)
+TASKS = dict(swap=task_swap, sort=task_sort, pairs=task_pairs, sift=task_sift, empty=task_empty,
+             big=task_big)
 
 
 def dispatch(t):
@@ -305,7 +385,7 @@ def dispatch(t):
 
 
 def plan(tier):
-    ts = [('empty', None)]
+    ts = [('empty', None), ('big', 'swaps', None), ('big', 'sift', None), ('big', 'sort', None)]
     if tier == 'quick':
         for oi in range(6):
             for si in range(2):
